@@ -45,6 +45,7 @@ type wcall struct {
 
 type script struct {
 	calls      []wcall
+	stacked    bool          // the wrapped writer is another ProgressWriter that has already counted bytes
 	stringable bool          // wrapped writer implements io.StringWriter
 	greedy     bool          // consumer drains in a loop from the start
 	late       int           // consumer only starts before call #late (-1: per-call flags)
@@ -72,7 +73,7 @@ func (s script) render() string {
 		}
 		parts = append(parts, p)
 	}
-	return fmt.Sprintf("stringWriter=%v greedy=%v late=%d absentUntilClose=%v asksSizeFirst=%v lateBy=%s: %s", s.stringable, s.greedy, s.late, s.absent, s.asksSize, s.lateBy, strings.Join(parts, "; "))
+	return fmt.Sprintf("stacked=%v stringWriter=%v greedy=%v late=%d absentUntilClose=%v asksSizeFirst=%v lateBy=%s: %s", s.stacked, s.stringable, s.greedy, s.late, s.absent, s.asksSize, s.lateBy, strings.Join(parts, "; "))
 }
 
 // wrapped writers ---------------------------------------------------------
@@ -141,6 +142,19 @@ func runScript(s script) (string, outcome) {
 	} else {
 		pw0 = &plainWriter{behs: behs}
 		inner = pw0
+	}
+	// stacked: the writer that is wrapped is itself a ProgressWriter (per-file progress inside overall progress) that has
+	// already counted a few bytes. The two are separate objects: separate totals, separate channels, separate Close().
+	var below *ioutil.ProgressWriter
+	pre := 0
+	if s.stacked {
+		pw0.behs = append([]wbeh{{}}, pw0.behs...)
+		below = ioutil.NewProgressWriter(inner)
+		if n, err := below.Write([]byte("earlier")); n != 7 || err != nil {
+			return fmt.Sprintf("harness: pre-write returned (%d, %v)", n, err), oc
+		}
+		pre = 1
+		inner = below
 	}
 	pw := ioutil.NewProgressWriter(inner)
 	var status chan int
@@ -220,8 +234,8 @@ func runScript(s script) (string, outcome) {
 		if c.useString && s.stringable {
 			wantCall = "WriteString"
 		}
-		if len(pw0.calls) != i+1 || pw0.calls[i] != wantCall {
-			return fmt.Sprintf("call #%d reached the wrapped writer as %v, want one %s call", i, pw0.calls[min(i, len(pw0.calls)):], wantCall), oc
+		if len(pw0.calls) != i+1+pre || pw0.calls[i+pre] != wantCall {
+			return fmt.Sprintf("call #%d reached the wrapped writer as %v, want one %s call", i, pw0.calls[min(i+pre, len(pw0.calls)):], wantCall), oc
 		}
 		synctest.Wait()
 		if len(received) > before {
@@ -234,6 +248,9 @@ func runScript(s script) (string, outcome) {
 		} else if !parked && !s.greedy {
 			oc.missed++
 		}
+	}
+	if s.stacked {
+		expectData = *bytes.NewBuffer(append([]byte("earlier"), expectData.Bytes()...))
 	}
 	if !bytes.Equal(pw0.got.Bytes(), expectData.Bytes()) {
 		return "the bytes that reached the wrapped writer differ from the bytes written", oc
@@ -303,6 +320,30 @@ func runScript(s script) (string, outcome) {
 	if got := pw.Size(); got != total {
 		return fmt.Sprintf("after Close() Size() = %d, want %d", got, total), oc
 	}
+	if s.stacked {
+		// the ProgressWriter underneath is untouched by the outer one's life cycle: its own total, its own open channel
+		if got := below.Size(); got != 7+total {
+			return fmt.Sprintf("the ProgressWriter underneath reports Size() = %d, want its own 7 bytes plus the %d written through it", got, total), oc
+		}
+		select {
+		case v, ok := <-below.Status():
+			return fmt.Sprintf("the channel of the ProgressWriter underneath delivered (%d, %v) although nobody closed that writer", v, ok), oc
+		default:
+		}
+		var last int
+		closed := make(chan struct{})
+		go func() {
+			defer close(closed)
+			for v := range below.Status() {
+				last = v
+			}
+		}()
+		below.Close() // a panic here (send on closed channel) fails the case
+		<-closed
+		if last != 7+total {
+			return fmt.Sprintf("the ProgressWriter underneath delivered %d as its final total, want %d", last, 7+total), oc
+		}
+	}
 	// whoever asks for the channel after Close() has returned (a select loop that calls Status() every round, an
 	// observer that starts late) gets a closed channel: a receive comes back at once, with ok == false
 	for round := 0; round < 2; round++ {
@@ -327,7 +368,7 @@ func keys(m map[int]bool) []int {
 }
 
 func genScript(t *rapid.T) script {
-	s := script{stringable: rapid.Bool().Draw(t, "stringWriter"), late: -1}
+	s := script{stringable: rapid.Bool().Draw(t, "stringWriter"), late: -1, stacked: rapid.IntRange(0, 5).Draw(t, "stackedOnAnotherProgressWriter") == 0}
 	switch rapid.IntRange(0, 5).Draw(t, "consumer") {
 	case 0:
 		s.greedy = true
